@@ -206,6 +206,13 @@ def corpus():
     out.append(mk({b"docs dir/read me.txt": F(body), b'we"ird\\name': F(body)},
                   b'--- "a/docs dir/read me.txt"\n+++ "b/docs dir/read me.txt"\n@@ -1,2 +1,2 @@\n a\n-X\n+B\n'
                   b'--- "a/we\\"ird\\\\name"\n+++ "b/we\\"ird\\\\name"\n@@ -1,2 +1,2 @@\n a\n-X\n+B\n'))
+    # two failing sections for one file with other failing files between them (seeded C13-j: only the reject rendered
+    # last was looked at when a second section for a file came, so a.rej was written twice and kept one hunk)
+    sec = lambda n, at, bad: b"--- a/%s\n+++ b/%s\n@@ -%d,2 +%d,2 @@\n %s\n-%s\n+NEW\n" % (n, n, at, at, body.split(b"\n")[at - 1], bad)
+    out.append(mk({b"a.txt": F(body), b"b.txt": F(body), b"c.txt": F(body)},
+                  sec(b"a.txt", 1, b"X") + sec(b"b.txt", 3, b"Y") + sec(b"c.txt", 5, b"Z") + sec(b"a.txt", 7, b"W")))
+    out.append(mk({b"a.txt": F(body), b"b.txt": F(body)},
+                  sec(b"a.txt", 1, b"X") + sec(b"b.txt", 3, b"Y") + sec(b"a.txt", 4, b"V") + sec(b"b.txt", 6, b"U") + sec(b"a.txt", 7, b"W")))
     # reversed entry, -p0, quoted name
     out.append(mk({b"f": F(body)}, b"--- f\n+++ f\n@@ -1,2 +1,2 @@\n a\n-X\n+B\n", b"p.patch -p0 -R\n"))
     for w, c in list(out):
